@@ -5,4 +5,16 @@ CHECKS = [
       technique="bounded exhaustive enumeration (all curves over small prime fields x all point pairs x all representations) against an affine reference model",
       text="Every non-singular curve over F_5..F_17 (thorough: ..F_23), every ordered pair of group elements, every projective scaling / negated / legacy representation, through +, double, neg, ==, !=, x, y, to_affine, scale, compared with textbook chord-and-tangent arithmetic; structured P+P, P+(-P), negated-operand cases on all 17 production curves. The formulas are size-generic, so complete coverage of small fields exercises every branch that production sizes take with probability 2^-200.",
       note="Trusts the self-validated affine reference (group axioms checked on each run). Exhaustive only for the listed fields; production curves get structured cases. y == 0 points are a recorded known finding (D7)."),
+ dict(id="C07", engine=E1, category="exploration",
+      technique="bounded exhaustive enumeration (all points x all scalars in [-3, 2*ord+3] x all multiplication paths; all (a,b,Q) for mul_add) against group-table index arithmetic",
+      text="All curves over F_7, F_11 (thorough: F_13, F_17) and the toy catalogue: every point, every k in [-3, 2 ord+3] plus outliers, 6 construction paths (lazy table fresh/built, declared order, no order, legacy with/without order), declared order in {ord(P), #E}, scalings, both operand orders; mul_add over every Q and all (ka,kb) in [-2, ord+2]^2; production scalar alphabet (n-1, n, n+1, 2n+1, negative, 3-limb) on all 17 curves against an affine ladder.",
+      note="Trusts the reference group tables (validated). Even-order points are the recorded D7 finding. Scalars beyond the alphabets are not covered on production sizes."),
+ dict(id="C01", engine=E1, category="exploration",
+      technique="bounded exhaustive enumeration of (d, k, digest) on toy curves and pairwise-complete cross of the configuration dimensions; oracle = verify returns True",
+      text="Every d x every k x every 1-byte digest (plus structured lengths) on all tiny curves through sign_digest -> verify_digest; deterministic signing per (d, digest, hash); a boundary (d,k,msg) grid crossed with 7 signing entry points, 6 encoders/decoders, allow_truncate, lazy/eager precompute, 7 verifying-key and 5 signing-key reload formats and hashes of 4..64 bytes, on toy curves of several shapes and the real curves.",
+      note="RSZeroError from non-deterministic entry points is a legitimate non-signature (counted). Entropy is a scripted deterministic stream."),
+ dict(id="C03", engine=E1, category="exploration",
+      technique="bounded exhaustive enumeration against FIPS 186-4 written over a reference group table",
+      text="(r, s) from sign_digest(k=) and the public key bytes compared with the standard's values for all d, all k, all 1-byte digests on tiny curves; one curve per order bit length 3..17 with all 1- and 2-byte digests (leftmost-bits rule at every alignment); RSZeroError iff r or s is 0; BadDigestError iff truncation off and digest longer than the order; production alphabet on real curves against an affine ladder.",
+      note="The 'fits in bytes but has more bits than n, truncation off' corner is left open by the property and only counted."),
 ]
